@@ -24,6 +24,7 @@ import (
 	"sort"
 	"strings"
 	"sync"
+	"sync/atomic"
 	"testing"
 	"time"
 	"unicode/utf8"
@@ -43,8 +44,9 @@ func TestMain(m *testing.M) {
 // harness carries the run and the single scratch root; every directory the check creates lives below
 // top, which is created with os.MkdirTemp under os.TempDir() and removed when TestCheck returns.
 type harness struct {
-	run *report.Run
-	top string
+	run       *report.Run
+	top       string
+	nsSampled atomic.Bool // one written-out namesake case is enough
 }
 
 // witness is what goes into a replay file: exactly one of the two members is set.
@@ -57,7 +59,7 @@ type witness struct {
 func TestCheck(t *testing.T) {
 	run := report.New("C20", "exploration")
 	defer run.Finish(t)
-	run.Rule("round trip: seeded random trees (depth 0..4, 0..40 files, empty/binary/compressible contents, names with spaces, dots, leading dots, unicode, punctuation, 200..255-byte names) x filter {nil, extension, directory prefix, not directory prefix} x recursive x source with/without trailing slash x destination absent/empty; oracle = equality of the maps relative path -> (SHA-256, size) (selected source files vs. non-directory entries under the destination). For every fourth tree additionally, under all filter x recursive x trailing-slash combinations: (a) the destination is first filled by hand with other, mostly longer files at the same relative paths, (b) re-extraction: archive and extract, edit the source in place (files cut to a prefix, emptied, shortened with other content, grown, replaced at equal length, untouched, deleted, new), archive again and extract into the SAME destination; oracle there = every selected file of the current source is under the destination with exactly the source content, and nothing is there that is neither selected nor was there before the extraction. confinement: archives written with archive/zip whose entry names carry '..' segments, absolute paths, backslashes, clashes, duplicates, empty/overlong names, with the destination 1..4 levels below the sandbox root and absent/empty/populated; oracle = snapshot (path, size, sha256, mtime, mode) of the sandbox outside the destination is unchanged; thorough: strace of a child process, every successful write-mode open / mkdir / rename / link / unlink path lies under the destination. distinct = distinct (filter, recursive, slash, destination state, tree depth, file-count bucket, selected-count bucket, name-class mask) round-trip classes plus distinct (variant, filter, recursive, slash, depth, buckets, set of change kinds among the selected files) second-extraction classes plus distinct (hostile class set, destination depth, destination state, outcome) confinement classes")
+	run.Rule("round trip: seeded random trees (depth 0..4, 0..40 files, empty/binary/compressible contents, names with spaces, dots, leading dots, unicode, punctuation, 200..255-byte names) x filter {nil, extension, directory prefix, not directory prefix} x recursive x source with/without trailing slash x destination absent/empty; oracle = equality of the maps relative path -> (SHA-256, size) (selected source files vs. non-directory entries under the destination). For every tree with files additionally, per filter x recursive, one round trip (same oracle) whose archive file is named after a file of the tree that the combination selects (top level or sub-folder; every fourth case after a directory of the tree or the source directory) and whose destination directory is named after another file or directory of the tree, archive and destination each in a directory of their own outside the source. For every fourth tree additionally, under all filter x recursive x trailing-slash combinations: (a) the destination is first filled by hand with other, mostly longer files at the same relative paths, (b) re-extraction: archive and extract, edit the source in place (files cut to a prefix, emptied, shortened with other content, grown, replaced at equal length, untouched, deleted, new), archive again and extract into the SAME destination; oracle there = every selected file of the current source is under the destination with exactly the source content, and nothing is there that is neither selected nor was there before the extraction. confinement: archives written with archive/zip whose entry names carry '..' segments, absolute paths, backslashes, clashes, duplicates, empty/overlong names, with the destination 1..4 levels below the sandbox root and absent/empty/populated; oracle = snapshot (path, size, sha256, mtime, mode) of the sandbox outside the destination is unchanged; thorough: strace of a child process, every successful write-mode open / mkdir / rename / link / unlink path lies under the destination. distinct = distinct (filter, recursive, slash, destination state, tree depth, file-count bucket, selected-count bucket, name-class mask) round-trip classes plus distinct (filter, recursive, slash, destination state, depth, buckets, kind of the archive's namesake) namesake classes plus distinct (variant, filter, recursive, slash, depth, buckets, set of change kinds among the selected files) second-extraction classes plus distinct (hostile class set, destination depth, destination state, outcome) confinement classes")
 	run.Assume("the source directory is spelled as a clean absolute path with at most one trailing slash; no symbolic links in the source tree, in the destination or in the sandbox; file names contain no backslash or control character")
 	run.Assume("what a destination held before an extraction (left by an earlier extraction, e.g. of a file since deleted or no longer selected, or put there by hand) and is not selected now is pre-existing content, not something the extraction created: neither its presence nor its content is judged; only paths that are neither selected nor pre-existing count as extra")
 	run.Assume("the parent of the destination exists; the archive file lives outside the sandbox that is snapshotted")
@@ -141,6 +143,12 @@ type rtCase struct {
 	Variant string     `json:"variant,omitempty"`
 	Tree2   *treeSpec  `json:"tree2,omitempty"`
 	Pre     []fileSpec `json:"prepopulated,omitempty"`
+	// Variant "namesake": the archive file and the destination directory carry names that also occur inside
+	// the tree. ZipName (base name of the archive, which lives in a directory of its own outside the source)
+	// is the base name of a file or directory of the tree or the name of the source directory itself;
+	// DestName (base name of the destination, in another directory of its own) likewise.
+	ZipName  string `json:"archive_name,omitempty"`
+	DestName string `json:"dest_name,omitempty"`
 }
 
 const (
@@ -557,6 +565,8 @@ func compare(c *rtCase, want map[string]string, sizes map[string]int, allSums ma
 		head += ", second extraction into the same destination after the source was changed"
 	case "/prepopulated":
 		head += ", destination filled by hand before the extraction"
+	case "/namesake":
+		head += fmt.Sprintf(", archive file named %s and destination directory named %s (names that occur in the tree; both live outside the source)", show(c.ZipName), show(c.DestName))
 	}
 	head += ": "
 	if len(missing) > 0 {
@@ -636,9 +646,22 @@ func runCombo(c *rtCase, src string, srcSums map[string]string, work string, n i
 	want, sizes := selected(c, c.Tree.Files, src, srcSums)
 	zipPath := filepath.Join(work, fmt.Sprintf("a%d.zip", n))
 	dest := filepath.Join(work, fmt.Sprintf("out%d", n))
+	tag := ""
+	if c.Variant == "namesake" {
+		tag = "/namesake"
+		zdir, ddir := filepath.Join(work, fmt.Sprintf("z%d", n)), filepath.Join(work, fmt.Sprintf("d%d", n))
+		defer os.RemoveAll(zdir)
+		defer os.RemoveAll(ddir)
+		if err := os.Mkdir(zdir, 0o755); err != nil {
+			return &vio{"harness/mkdir", err.Error()}, len(want)
+		}
+		if err := os.Mkdir(ddir, 0o755); err != nil {
+			return &vio{"harness/mkdir", err.Error()}, len(want)
+		}
+		zipPath, dest = filepath.Join(zdir, c.ZipName), filepath.Join(ddir, c.DestName)
+	}
 	defer os.Remove(zipPath)
 	defer os.RemoveAll(dest)
-	tag := ""
 	var pre map[string]string
 	if c.Variant == "prepopulated" {
 		tag = "/prepopulated"
@@ -942,6 +965,7 @@ func (h *harness) oneTree(idx, maxSize int) {
 			}
 		}
 	}
+	h.namesakes(idx, ts, src, srcSums, base, dirParam, depth)
 	// UnzipToFolder (and ZipFolder) must have left the source alone: it is outside every destination
 	after, _, err := hashTree(src)
 	if err == nil {
@@ -963,6 +987,99 @@ func (h *harness) oneTree(idx, maxSize int) {
 	}
 	if idx%4 == 0 {
 		h.secondExtractions(rng, idx, ts, src, srcSums, base, dirParam, depth)
+	}
+}
+
+// namesakes runs, for every (filter, recursive) combination of a tree that has files, one round trip in
+// which the archive file and the destination directory are named after things of the tree itself: the
+// archive after a file the combination selects (any depth; every fourth case after a directory or after the
+// source directory), the destination after another file or directory. Archive and destination live in
+// directories of their own outside the source, so the tree, the selection and the oracle are unchanged -
+// "for any directory tree" includes trees that hold a file called like the archive one is about to write.
+func (h *harness) namesakes(idx int, ts treeSpec, src string, srcSums map[string]string, base, dirParam string, depth int) {
+	run := h.run
+	if len(ts.Files) == 0 {
+		run.Add("ns_trees_skipped_no_files", 1)
+		return
+	}
+	run.Add("ns_trees", 1)
+	rng := rand.New(rand.NewSource(run.Seed()*7_368_787 + int64(idx) + 1<<40)) // own stream: the tree's stream is left as it was
+	baseOf := func(p string) string { return p[strings.LastIndexByte(p, '/')+1:] }
+	var all []string // every name of the tree: files, directories, the source directory
+	for _, f := range ts.Files {
+		all = append(all, baseOf(f.Path))
+	}
+	for _, d := range ts.Dirs {
+		all = append(all, baseOf(d))
+	}
+	all = append(all, ts.SrcName)
+	n := 200
+	for _, filter := range []string{"nil", "ext", "dir", "notdir"} {
+		for _, rec := range []bool{true, false} {
+			n++
+			c := &rtCase{Tree: ts, Filter: filter, Recursive: rec, Slash: rng.Intn(2) == 0, DestExists: rng.Intn(2) == 0,
+				DestSlash: rng.Intn(5) == 0, Variant: "namesake"}
+			switch filter {
+			case "ext":
+				c.Param = ".txt"
+			case "dir", "notdir":
+				c.Param = dirParam
+			}
+			want, _ := selected(c, ts.Files, src, srcSums)
+			after := ""
+			switch {
+			case (n+idx)%4 == 0 && len(ts.Dirs) > 0 && rng.Intn(2) == 0:
+				c.ZipName, after = baseOf(ts.Dirs[rng.Intn(len(ts.Dirs))]), "directory"
+			case (n+idx)%4 == 0:
+				c.ZipName, after = ts.SrcName, "source-dir"
+			case len(want) > 0:
+				var sel []string
+				for p := range want {
+					sel = append(sel, p)
+				}
+				sort.Strings(sel)
+				// half of the time the deepest selected file, otherwise any selected file
+				p := sel[rng.Intn(len(sel))]
+				if rng.Intn(2) == 0 {
+					for _, q := range sel {
+						if strings.Count(q, "/") > strings.Count(p, "/") {
+							p = q
+						}
+					}
+				}
+				c.ZipName, after = baseOf(p), "selected-file"
+				if strings.Contains(p, "/") {
+					after = "selected-file-in-subfolder"
+				}
+			default:
+				c.ZipName, after = baseOf(ts.Files[rng.Intn(len(ts.Files))].Path), "unselected-file"
+			}
+			c.DestName = all[rng.Intn(len(all))]
+			v, nsel := runCombo(c, src, srcSums, base, n)
+			run.Eval(1)
+			run.Add("ns_combinations", 1)
+			run.Add("ns_archive_named_after_"+after, 1)
+			run.Add("ns_files_compared", int64(nsel))
+			if c.DestName == c.ZipName {
+				run.Add("ns_destination_and_archive_same_name", 1)
+			}
+			if v != nil {
+				if strings.HasPrefix(v.sig, "harness/") {
+					run.Inconclusive(v.sig + ": " + v.what)
+					continue
+				}
+				run.Add("ns_violations", 1)
+				run.Violation(v.sig, v.what, witness{Kind: "roundtrip", RT: c})
+				continue
+			}
+			if nsel > 0 {
+				run.DistinctStr(fmt.Sprintf("ns|%s|%v|%v|%v|d%d|n%s|s%s|%s", filter, rec, c.Slash, c.DestExists, depth, bucket(len(ts.Files)), bucket(nsel), after))
+			}
+			if nsel >= 2 && after == "selected-file-in-subfolder" && filter == "nil" && run.SampleN() < 4 && h.nsSampled.CompareAndSwap(false, true) {
+				run.Sample(map[string]any{"kind": "roundtrip", "variant": "namesake", "filter": filter, "recursive": rec, "archive_name": c.ZipName,
+					"dest_name": c.DestName, "files_in_tree": len(ts.Files), "selected_and_reproduced": nsel, "tree_depth": depth})
+			}
+		}
 	}
 }
 
